@@ -177,6 +177,8 @@ pub struct BParams {
     pub long_w: u32,
     /// weight (out of 100) of the buildings whose steps differ by orders of magnitude; 4 = 4 %
     pub mag_w: u32,
+    /// weight (out of 1000) of the buildings replicated to 20-300 systems
+    pub rep_w: u32,
 }
 
 impl BParams {
@@ -197,8 +199,10 @@ impl BParams {
             cogen_heavy: false,
             aux_non_epb: false,
             fine: true,
-            long_w: 15,
+            // (the thorough tier runs 100-300 times the cases: the expensive classes get a smaller share there)
+            long_w: if quick { 10 } else { 2 },
             mag_w: 4,
+            rep_w: if quick { 12 } else { 3 },
         }
     }
 }
@@ -677,7 +681,7 @@ pub fn building_g(p: &BParams) -> BoxedStrategy<BuildingG> {
                 // long series: about one building in 33 has 365, 1 000, 4 380 or 8 760 steps (total, after tiling)
                 if p.max_steps >= 12 { prop_oneof![500 - p.long_w => Just(0usize), p.long_w => prop_oneof![2 => Just(365usize), 2 => Just(1000usize), 5 => Just(4380usize), 6 => Just(8760usize)]].boxed() } else { Just(0usize).boxed() },
                 // many systems: about one building in 70
-                if p.max_steps >= 12 { prop_oneof![207 => Just(1usize), 1 => Just(20usize), 1 => Just(70usize), 1 => Just(300usize)].boxed() } else { Just(1usize).boxed() },
+                if p.max_steps >= 12 { prop_oneof![1000 - p.rep_w => Just(1usize), p.rep_w => prop_oneof![2 => Just(20usize), 2 => Just(70usize), 1 => Just(200usize)]].boxed() } else { Just(1usize).boxed() },
                 // steps of very different magnitude inside one building: about one building in 25
                 if p.max_steps >= 12 && p.huge_kwh > 0 { prop_oneof![100 - p.mag_w => Just(0u8), p.mag_w => prop_oneof![2 => Just(1u8), 1 => Just(2u8), 1 => Just(3u8), 2 => Just(4u8)]].boxed() } else { Just(0u8).boxed() },
             )
